@@ -192,36 +192,32 @@ Definition case_code_selected (c : pcase) (impl : sx) : Z :=
 (* ------------------------------------------------------------------------------------------- *)
 (* The call below a quantifier: and_(<conjuncts binding the other variables>, for_all(u, f(..u..)))  (neg = false) or
    ... not_(exists(u, f(..u..)))  (neg = true, rewritten by the library to for_all(u, not f)).  Spec: the row of rho is
-   returned iff the call holds (does not hold) for EVERY value of u.  [stale] is the faithful reading of the defect
-   C12-b (open): the call is invoked for the first value of u only and its result is replayed for the others. *)
-Definition quant_rows (c : pcase) (u : Z) (neg stale : bool) : sx :=
+   returned iff the call holds (does not hold) for EVERY value of u.  (Before 1d53b86 the call was invoked for the first
+   value of u only and its result replayed for the others: finding C12-b, fixed.) *)
+Definition quant_rows (c : pcase) (u : Z) (neg : bool) : sx :=
   let kwargs := bound_kwargs (c_params c) (c_pos c) (c_kw c) in
   SL (sx_sort (flat_map (fun rho =>
         let t := fun v => xorb neg (truthy_z (body_of c (call_of (w_attr c) kwargs (rho ++ [(u, v)])))) in
-        let ok := match w_dom c u with
-                  | [] => true
-                  | v0 :: _ => if stale then t v0 else forallb t (w_dom c u)
-                  end in
-        if ok then [row_of c rho] else []) (cands (w_dom c) [] (c_pre c)))).
+        if forallb t (w_dom c u) then [row_of c rho] else []) (cands (w_dom c) [] (c_pre c)))).
 
 Definition rows_of_outcome (o : sx) : sx :=
   match o with SL [SZ 1; SZ 0; SL rows] => SL (sx_sort rows) | _ => o end.
 
-(* q = 10 * u + (1 if not_(exists) else 0);  0 agree with the Spec, 2 = exactly the stale reading (known finding), 3 = neither *)
+(* q = 10 * u + (1 if not_(exists) else 0) *)
 Definition case_code_quant (cq : pcase * Z) (impl : sx) : Z :=
   let c := fst cq in let u := (snd cq / 10)%Z in let neg := Z.eqb (snd cq mod 10) 1 in
-  classify (rows_of_outcome impl) (quant_rows c u neg true) (quant_rows c u neg false).
+  if sx_eqb (rows_of_outcome impl) (quant_rows c u neg) then 0 else 3.
 
 (* ------------------------------------------------------------------------------------------- *)
 (* The call as an OPERAND of a comparison: f(...) == k, f(...) < k, f(...) != k.  Spec: one call per candidate binding;
-   the row is returned iff the comparison holds for the call's plain result.  [dropfalsy] is the faithful reading of
-   the defect C12-c (open): a binding whose result is falsy is dropped before the comparison. *)
-Definition operand_outcome (c : pcase) (op k : Z) (dropfalsy : bool) : sx :=
+   the row is returned iff the comparison holds for the call's plain result, falsy results included.  (Before c666f8e a
+   binding whose result is falsy was dropped before the comparison: finding C12-c, fixed.) *)
+Definition operand_outcome (c : pcase) (op k : Z) : sx :=
   let kwargs := bound_kwargs (c_params c) (c_pos c) (c_kw c) in
   let per := map (fun rho => let call := call_of (w_attr c) kwargs rho in
                              let r := body_of c call in
                              let holds := if Z.eqb op 0 then Z.eqb r k else if Z.eqb op 1 then Z.ltb r k else negb (Z.eqb r k) in
-                             (SL (map SZ (seen c call)), holds && (negb dropfalsy || truthy_z r), row_of c rho))
+                             (SL (map SZ (seen c call)), holds, row_of c rho))
                  (cands (w_dom c) [] (dedup (c_pre c ++ vars_of kwargs))) in
   SL [SZ 1; SZ 0; SL (sx_sort (map (fun r => fst (fst r)) per));
       SL (sx_sort (map (fun r => snd r) (filter (fun r => snd (fst r)) per)))].
@@ -229,4 +225,4 @@ Definition operand_outcome (c : pcase) (op k : Z) (dropfalsy : bool) : sx :=
 (* ok = 10 * op + k *)
 Definition case_code_operand (ck : pcase * Z) (impl : sx) : Z :=
   let c := fst ck in let op := (snd ck / 10)%Z in let k := (snd ck mod 10)%Z in
-  classify (canon impl) (operand_outcome c op k true) (operand_outcome c op k false).
+  if sx_eqb (canon impl) (operand_outcome c op k) then 0 else 3.
